@@ -425,7 +425,7 @@ pub(crate) fn add_int_permutation<W, R, T>(
                 return xerr(ManagedXError::new("k cannot be greater than n", rt)?);
             }
             // the number of permutations may exceed usize; every index that fits is then valid
-            let total = (n-k+1..=n).try_fold(1usize, |acc, x| acc.checked_mul(x));
+            let total = (n-k..n).try_fold(1usize, |acc, x| acc.checked_mul(x + 1)); // (n-k+1 ..= n, without forming n + 1)
             if total.map_or(false, |total| i >= total){
                 return xerr(ManagedXError::new("i too large", rt)?);
             }
